@@ -364,7 +364,7 @@ fn long_lived_seq(rng: &mut Rng, sends: usize, sync: u64) -> Vec<Op> {
 /// keeps must not wrap or be rebased into a wrong answer)
 fn long_run(st: &mut Stream) {
     let salt = 5000i64;
-    let case = "bus over an infinite counting source: outputs a and b pull 70000 frames in lock-step (a first), then b takes the lead by 2, a catches up, a leads by 3, b catches up, ... (200 changes of lead), then b is dropped while behind and c attached";
+    let case = "bus over an infinite counting source: outputs a and b pull 70000 frames in lock-step (a first), then b takes the lead by 2, a catches up, a leads by 3, b catches up, ... (200 changes of lead), then leads of 65, 130, 300, 1000, 64, 129 frames after odd numbers of lock-step frames, then b is dropped while behind and c attached";
     mark(0, case);
     let log = Rc::new(RefCell::new(Vec::<i64>::new()));
     let r = guarded(|| {
@@ -380,6 +380,14 @@ fn long_run(st: &mut Stream) {
             let lead = 1 + round % 4;
             if round % 2 == 0 { for _ in 0..lead { pull!(b, cb, "b"); } pend!(); while ca < cb { pull!(a, ca, "a"); } }
             else { for _ in 0..lead { pull!(a, ca, "a"); } pend!(); while cb < ca { pull!(b, cb, "b"); } }
+            pend!();
+        }
+        // BIG leads after an odd number of lock-step frames (a backlog that has to grow while its storage is wrapped):
+        // one output runs 65, 130, 300, 1000 frames ahead, the other catches up, roles swap
+        for (round, lead) in [65usize, 130, 300, 1000, 64, 129].iter().enumerate() {
+            for _ in 0..(1 + 16 * round) { pull!(a, ca, "a"); pull!(b, cb, "b"); }
+            if round % 2 == 0 { for _ in 0..*lead { pull!(a, ca, "a"); } pend!(); while cb < ca { pull!(b, cb, "b"); } }
+            else { for _ in 0..*lead { pull!(b, cb, "b"); } pend!(); while ca < cb { pull!(a, ca, "a"); } }
             pend!();
         }
         for _ in 0..5 { pull!(a, ca, "a"); }
